@@ -20,11 +20,11 @@ def gen_env(table, powers=(1, 1, 1, 1), prefixes=False):
     """prefixes: start from the scripted prefixes of NodePrefixes.tla (written for Me = 2 and the rotation 1,2,3,4)."""
     if prefixes and (table[0][:4] != [1, 2, 3, 4] or table[1][:4] != [2, 3, 4, 1]):
         raise Infra("the real proposer rotation %s is not the one NodePrefixes.tla was written for" % table[0][:4])
-    return {"MCgen.tla": "---- MODULE MCgen ----\nEXTENDS MC_NodeEnv\nP == INSTANCE NodePrefixes\nPowerV == %s\nPropV == %s\nPrefixV == %s\n====\n" %
-            (tla_seq(list(powers)), tla_seq(table), "P!All" if prefixes else "<< <<>> >>")}
+    return {"MCgen.tla": "---- MODULE MCgen ----\nEXTENDS MC_NodeEnv\nP == INSTANCE NodePrefixes\nPowerV == [h \\in 1..%d |-> %s]\nPropV == %s\nPrefixV == %s\n====\n" %
+            (len(table) + 2, tla_seq(list(powers)), tla_seq(table), "P!All" if prefixes else "<< <<>> >>")}
 
 def cfg_env(me, depth, usedie, maxround=3, maxheight=2, bids='{"A", "X"}', invariants=("C03", "TypeOK", "EvidenceOnlyForEquivocators"), extra="", waittxs=False):
-    s = ("SPECIFICATION Spec\nCONSTANTS\n  N = 4\n  Power <- PowerV\n  ProposerOf <- PropV\n  InvalidBids = {\"X\"}\n"
+    s = ("SPECIFICATION Spec\nCONSTANTS\n  N = 4\n  PowerAt <- PowerV\n  ProposerOf <- PropV\n  InvalidBids = {\"X\"}\n"
          "  SkipTimeoutCommit = FALSE\n  WaitForTxs = %s\n  Me = %d\n  Bids = %s\n  MyBid = \"M\"\n  MaxRound = %d\n  MaxHeight = %d\n"
          "  Depth = %d\n  UseDie = %s\n  Prefixes <- PrefixV\nVIEW View\n") % ("TRUE" if waittxs else "FALSE", me, bids, maxround, maxheight, depth, "TRUE" if usedie else "FALSE")
     for i in invariants:
